@@ -277,7 +277,7 @@ theorem cif_save_idempotent_aux (env : Env) (lenv : LoadEnv) (a a1 a2 : Atoms) (
     (h5 : saveCif env a2 fr = .ok b3)
     (hlab : ∀ r ∈ a.atoms, endsWithDigit (elemOf a r) = false)
     (hextra : extraLabelsOk a = true)
-    (hq : ∀ r ∈ a.atoms, parseFloat (env.reprQ r.charge) = some r.charge)
+    (hq : ∀ r ∈ a.atoms, tofloat (env.reprQ r.charge) = some r.charge)
     (hmass : ∀ r ∈ a.atoms, (lenv.massOf (elemOf a r)).isSome = true)
     (hcell : ∀ c, a.cell = some c → (lenv.cellOf ((env.cellpar c).toList.map stripSu)).isSome = true)
     (hstable : ∀ c c', a.cell = some c → lenv.cellOf ((env.cellpar c).toList.map stripSu) = some c' →
